@@ -21,7 +21,7 @@ TEXT = {
 }
 
 TEXT.update({
-    "C04": ("TLC model-checks MC_Session (one Streamer over several attempts, every fault kind of the quantifier at every point): ExactlyOnce, "
+    "C04": ("TLC model-checks MC_Session (one Streamer over several attempts, every fault kind of the quantifier at every point, and attempts that end before their dump starts): ExactlyOnce, "
             "ResumeIsBoundaryAfterAccepted; EVERY session of that model within the bound is exported by TLC (Gen_Session) and replayed on ONE real "
             "Streamer object against the simulated master, plus fault plans on random histories; TLC validates that the accepted transactions over "
             "all attempts are exactly the committed sequence and that each following dump request is at the boundary after the last accepted "
@@ -30,18 +30,88 @@ TEXT.update({
     "C05": ("TLC checks the goroutine/channel model MC_Conn under weak fairness (StreamTerminates, NothingLeftBehind, ErrorNeverBlocks, "
             "HandlerDiscipline, ConnectionClosed); every stop cause x stop point x reader state x handler state is replayed on the real code "
             "under the race detector, and behaviours of MC_Conn drawn by TLC (Gen_Conn) are replayed with the library's hook points as scheduler "
-            "gates so that the real goroutines follow TLC's interleaving; TLC validates bounded-time return, socket closed at the master, no library "
+            "gates so that the real goroutines follow TLC's interleaving - including behaviours over two Stream calls in which the first call's reader is held back while the second call runs (Cover_Conn.cross.cfg); in the thorough tier TLAPS proves HandlerDiscipline and ConnectionClosed for any number of attempts and packets (MC_Conn_proofs); TLC validates bounded-time return, socket closed at the master, no library "
             "goroutine left (before and after Error() is called), handler discipline and that every Error() call returns; hook-level traces are "
             "validated against MC_Conn's own actions (Trace_Conn).", "§6 C05"),
     "C06": ("TLC checks ReasonReported on MC_Conn (all orderings of errChan publication, channel closes and the parser's select); the stop "
             "schedules and the TLC-generated schedules (Gen_Conn, hook points as scheduler gates) are replayed on the real code and TLC validates "
             "the return values of Stream and Error() against the stop cause.", "§6 C06"),
     "C07": ("TLC checks HandshakeExact on MC_Session; the simulated master decodes COM_QUERY / COM_BINLOG_DUMP of every attempt and TLC "
-            "validates order, count, flags, server id and position bytes (server ids >= 2^31, 255-byte/UTF-8 names, offsets to 2^32-1).", "§6 C07"),
+            "validates order (the announcement before the dump request, on the same connection), count, flags, server id and position bytes (server ids >= 2^31, 255-byte/UTF-8 names, offsets to 2^32-1).", "§6 C07"),
     "C08": ("TLC checks Stable on the memory-region model MC_Buffers; on the real code every delivered transaction is deep-projected at "
             "delivery, overwritten by the handler with a per-transaction pattern, re-read after all stream activity, and TLC validates "
             "that only the transaction's own scribbles are visible and that later deliveries still match the oracle.", "§6 C08"),
 })
+
+TEXT.update({
+    "C09": ("The rows-event format (presence bitmaps, NULL bitmaps, per-type cell lengths) is transcribed in TLA+ (EventFormat, CellCodec: RowsBodyP, "
+            "CellLen); TLC evaluates it on every recorded case - the real Rows() and the real column-by-column CellBytes walk over events written by "
+            "an independent writer for every column shape, bitmap and row count - and requires row count, byte-exact images and exact consumption "
+            "(length rule = value decoder); end to end the same tables are streamed through Stream() with partial images and several rows events per "
+            "table map.", "§6 C09"),
+    "C10": ("CellCodec.tla gives the decimal text of every integer width / signedness, the documented forms of YEAR, BIT, ENUM, SET and the round-trip "
+            "rule for FLOAT / DOUBLE; TLC evaluates it against the real CellBytes on exhaustive 8/16/24-bit domains (32-bit in the thorough tier) and "
+            "boundary / random wider values, and end to end through Stream() (signedness from the table mapper, also when the mapper's answer changes "
+            "while the stream runs and when MySQL 8.0's SIGNEDNESS metadata is present).", "§6 C10"),
+    "C11": ("CellCodec.tla transcribes decimal2bin's inverse for every valid (precision, scale); TLC compares the canonical text it derives from the "
+            "abstract digits with the real decoder's output for six digit classes of all 1 520 valid (p, s), both signs, the same cell decoded "
+            "twice, and end to end through Stream().", "§6 C11"),
+    "C12": ("CellCodec.tla transcribes the temporal encodings (DATE, TIME, DATETIME, TIMESTAMP and their fractional variants, zero dates, negative "
+            "times); TLC compares canonical texts with the real decoder over exhaustive 3-byte domains (thorough) / chunks (quick), fraction lengths "
+            "0..6, time zones with and without DST (the offset in force is logged from Go's tz database), and end to end.", "§6 C12"),
+    "C13": ("CellCodec.tla: string and blob cells are their bytes after a 1..4-byte length prefix chosen by the declared maximum; TLC checks value, "
+            "consumed length and error behaviour of the real decoder for every prefix width, declared maxima 0..65535 / CHAR 0..1023, actual lengths "
+            "at the boundaries (0, 1, 252..256, the declared maximum, values of 64 KiB and more behind 3- and 4-byte prefixes), NULL / empty / absent in every column position, and end to end.", "§6 C13"),
+    "C14": ("JsonBinary.tla is an independent encoder of MySQL's binary JSON and JsonSem.tla the denotation of rendered text; documents drawn from a "
+            "recursive generator are serialised by the harness writer (cross-checked against JsonBinary), decoded by the real code, the printed text is "
+            "parsed back and TLC requires the same document (keys, order, nesting, scalars incl. opaque temporals / decimals), in small and large "
+            "formats, also right after documents that cannot be rendered.", "§6 C14"),
+    "C15": ("EventFormat.tla transcribes TABLE_MAP (names, types, metadata, nullability, optional tail); TLC compares the decoded table map with the "
+            "encoded one for all metadata combinations, and - on streams - that rows are attributed to the table announced for their id, decoded "
+            "with the most recent table map and named / signed by the mapper by ordinal, and that a mapper table of another column count is rejected.",
+            "§6 C15"),
+    "C16": ("EventFormat.tla transcribes the common header and the bodies of FORMAT_DESCRIPTION, ROTATE, QUERY (status variables), XID, INTVAR, RAND; "
+            "TLC compares every decoded field with what the independent writer encoded, with and without CRC32; the stream half runs two streams on "
+            "one Streamer whose masters announce different formats and TLC requires the second stream's labels and contents to be those of its own "
+            "history.", "§6 C16"),
+    "C17": ("TLC checks NoPartialOnInvalid on MC_Streamer / MC_Session; the validity predicate is transcribed (EventFormat!HdrOK) and compared with the "
+            "real IsValid on structured and random byte strings, every header accessor is called on accepted buffers; malformed packets of every type "
+            "code are injected at every index of real streams (and wherever the session model injects one) and TLC requires an error, no partial "
+            "delivery, and the resume position at the last accepted boundary.", "§6 C17"),
+    "C18": ("GTIDSet.tla defines sets as canonical interval lists with AddGTID = union; TLC model-checks the algebra (AddIsUnion, RepIsCanon, "
+            "ReceiverUnchanged) over every set in a window, exports every such set (Gen_GTIDSet) and compares the real AddGTID / Contains / Equal / "
+            "String with it, plus wide random histories with forks (every earlier set is re-read after every call).", "§6 C18"),
+    "C19": ("GTIDText.tla / MariaGTID.tla transcribe the textual, flavor-tagged, SID-block and event encodings; TLC checks round trips of the real "
+            "parsers and printers for boundary server ids and sequence numbers (2^63-1, 2^64-1), MySQL 5.6 sets of 0..8 members, MariaDB sets in any "
+            "domain order; TLAPS proves AddGTID keeps one position per domain for all sets (MariaGTID_proofs).", "§6 C19"),
+    "C20": ("JsonSem.tla gives the JSON denotation of a transaction (escaping, invalid UTF-8, NULL vs empty, absent flag, type and statement names); TLC "
+            "compares it with what the library's own marshalers produce (called directly, read after the next serialisation, parsed back with "
+            "encoding/json) for end-to-end and synthetic transactions with arbitrary bytes, and on streams that every delivered cell renders as "
+            "absent / null / string as the binlog row says and that no delivered event's kind is rendered as unknown.", "§6 C20"),
+})
+
+TECH = {
+    "C01": "TLC refinement check (MC_Streamer: Refines) + TLC validation of recorded Stream() deliveries against Committed(log, start)",
+    "C02": "TLC model checking (OnlyAtCommit, Refines) + TLC-generated unit sequences (Gen_Units) replayed on Stream(), traces validated by TLC",
+    "C03": "TLC model checking (LabelsChain, ResumeExact) + one real resumed stream per delivered label, validated by TLC",
+    "C04": "TLC model checking of MC_Session + every session of the model (Gen_Session) replayed on one real Streamer; traces validated by TLC monitors",
+    "C05": "TLC liveness/safety checking of MC_Conn + TLC-generated schedules replayed with hook points as scheduler gates under the race detector; TLAPS proof of two invariants (thorough)",
+    "C06": "TLC model checking of MC_Conn (ReasonReported) + replayed stop schedules and TLC-generated schedules; Stream / Error() results validated by TLC",
+    "C07": "TLC model checking (HandshakeExact) + commands recorded by the simulated master validated by TLC",
+    "C08": "TLC model checking of MC_Buffers (Stable) + deliveries overwritten by the handler and re-read, validated by TLC",
+    "C09": "TLA+ transcription of the rows-event format evaluated by TLC on recorded decoder cases and streams (trace validation)",
+    "C10": "TLA+ transcription of the integer / float / YEAR / BIT / ENUM / SET decodings evaluated by TLC on exhaustive and boundary cases (trace validation)",
+    "C11": "TLA+ transcription of the DECIMAL encoding evaluated by TLC on recorded decoder cases (trace validation)",
+    "C12": "TLA+ transcription of the temporal encodings evaluated by TLC on exhaustive small domains and boundary cases (trace validation)",
+    "C13": "TLA+ transcription of the string / blob encodings evaluated by TLC on recorded decoder cases (trace validation)",
+    "C14": "independent TLA+ encoder (JsonBinary) and denotation (JsonSem) evaluated by TLC on recorded decodes of generated documents (trace validation)",
+    "C15": "TLA+ transcription of TABLE_MAP + stream monitors on attribution, evaluated by TLC (trace validation)",
+    "C16": "TLA+ transcription of header / FDE / ROTATE / QUERY / XID / INTVAR / RAND evaluated by TLC on recorded decodes; two-stream scenarios validated by TLC",
+    "C17": "TLC model checking (NoPartialOnInvalid) + transcribed validity predicate vs real IsValid + injected malformed packets, validated by TLC",
+    "C18": "TLC model checking of the GTID-set algebra + every set of the window (Gen_GTIDSet) and random histories compared with the real code by TLC",
+    "C19": "TLA+ transcription of the GTID encodings evaluated by TLC on recorded round trips; TLAPS proof for MariaDB AddGTID",
+    "C20": "TLA+ JSON denotation (JsonSem) evaluated by TLC on the library's marshaler output (trace validation)",
+}
 
 NOTE = ("Assumes: TLC and the CommunityModules Json module are correct; the simulated master implements the protocol subset of "
         "DESIGN.md A.1; the format transcription in spec/*.tla (checked against server-captured vectors by spec/Test_*.tla) is right; "
@@ -61,7 +131,7 @@ def main():
             "engine": "tlc-trace",
             "level_claimed": {"category": "model_checking", "text": text, "design_ref": ref},
             "level_note": NOTE,
-            "technique": props.REGISTRY[pid].get("technique", "explicit TLA+ specification: TLC model checking + TLC trace validation of the real code"),
+            "technique": TECH.get(pid) or props.REGISTRY[pid].get("technique", "explicit TLA+ specification: TLC model checking + TLC trace validation of the real code"),
         })
     allp = [json.loads(l)["id"] for l in open(os.path.join(VERIF, "properties.jsonl"))]
     na = [{"property_id": p, "reason": NA.get(p, "check not built yet in this round (claimed by DESIGN.md; work in progress)")}
